@@ -203,7 +203,8 @@ func (g *Graph) EnumReach(from []*Node, target NodePred, isV func(*Term) bool, c
 			}
 		}
 		avoid := func(n *Node) bool { return dead[n] || (alsoAvoid != nil && alsoAvoid(n)) }
-		if path := g.PathAvoiding(from, target, avoid); path != nil {
+		liveTarget := func(n *Node) bool { return !dead[n] && target(n) }
+		if path := g.PathAvoiding(from, liveTarget, avoid); path != nil {
 			out[name] = path
 		}
 	}
